@@ -29,9 +29,9 @@ Record backend_ok (B : backend) (Inv : T B -> Prop) (mem : T B -> N -> bool) : P
       b_ffz B t a b = f_scan (mem t) false a (N.to_nat (b + 1 - a));
   ok_ffs : forall t a b, Inv t -> a <= b ->
       b_ffs B t a b = f_scan (mem t) true a (N.to_nat (b + 1 - a));
-  ok_get : forall t gs a n, Inv t -> aligned gs a ->
+  ok_get : forall t gs a n, Inv t ->
       b_get B t gs a n = f_bits (mem t) (a - gs) (N.to_nat n);
-  ok_set : forall t gs a bits, Inv t -> aligned gs a -> (N.of_nat (length bits)) mod 8 = 0 ->
+  ok_set : forall t gs a bits, Inv t ->
       Inv (b_set B t gs a bits) /\
       forall j, mem (b_set B t gs a bits) j =
                 if f_rng (a - gs) (N.of_nat (length bits)) j
